@@ -180,6 +180,7 @@ def _obs(sheet):
         for x in rs:
             re_pairs += [p for p in _sel_items(x.selectorList) if not p.startswith("A:")]
     return {"rules": rules, "view": list(sheet.namespaces.items()), "pairs": pairs, "re_pairs": re_pairs,
+            "others": [r.type for r in sheet.cssRules if r.type != r.NAMESPACE_RULE],
             "text": text, "re_state": sheet_out(re_sheet)}
 
 
@@ -353,8 +354,17 @@ def oracle(case, obs):
         if i > 0:
             op = ops[i - 1]
             before = dict(obs[i - 1]["view"])
-            if op[0] in ("addo", "inso") and op[1] in before and before[op[1]] != op[2]:
-                redeclared = True
+            if op[0] in ("addo", "inso") and op[1] in before and before[op[1]] != op[2] and \
+                    o["outcome"] == "NoModificationAllowedErr":
+                redeclared = True     # the open finding: _cleanNamespaces refused half-way, rule left inserted
+            if o["others"] != obs[i - 1]["others"]:
+                yield ("a namespace operation added or removed a rule that is not an @namespace rule", i, feats)
+            if op[0] == "del" and o["outcome"] == "ok":
+                b, a = [r[:2] for r in obs[i - 1]["rules"]], [r[:2] for r in o["rules"]]
+                gone = [r for r in b if b.count(r) > a.count(r)]
+                if len(a) != len(b) - 1 or not gone or gone[0][0] != op[1]:
+                    yield ("del sheet.namespaces[p] succeeded without removing an @namespace rule of that prefix", i,
+                           feats)
             if o["pairs"] != obs[i - 1]["pairs"]:
                 yield ("a namespace operation changed the (uri, name) pairs of a selector", i, feats)
             used = set(p.split(":", 2)[1][1:-1] for p in obs[i - 1]["pairs"] if p.split(":", 2)[1].startswith("'"))
@@ -368,7 +378,7 @@ def oracle(case, obs):
                                     "NamespaceErr", "SyntaxErr"):
                 yield ("operation raised %s" % o["outcome"], i, feats)
         if redeclared:
-            feats = feats + ["after-redeclare-by-rule-object"]
+            feats = feats + ["after-redeclare-raised-halfway"]
         for p, u, text in o["rules"]:
             m = re.fullmatch(r'@namespace (?:/\*c\*/ )?(?:([A-Za-z0-9_-]+) )?"([^"]*)";', text)
             if not m or (m.group(1) or "") != p or m.group(2) != u:
@@ -439,6 +449,16 @@ def start_sheets(thorough):
             variants.append([("C",)] + ns + [("S", a), ("M", [b, [("s", "t", "p:r", "z")]])])
         if k % 2 == 1:   # prefixed selectors ONLY inside @media (in-use protection must look into the block)
             variants.append(ns + [("S", [("s", "t", "e", "b")]), ("M", [a, b])])
+        # every item kind as the ONLY user of a declared prefix (type, universal, attribute, negation), once at top
+        # level and once inside @media; the kind rotates with the declaration list, all prefixes of the list
+        pref = sorted(set(p for p, _ in decls if p))
+        if pref:
+            kind = "tuan"[k % 4]
+            only = [("s", kind, "p:" + p, "*" if kind == "u" else "x") for p in pref]
+            variants.append(ns + [("S", [("s", "t", "e", "b")]), ("S", only)])
+            kind2 = "tuan"[(k // 4) % 4]
+            only2 = [("s", kind2, "p:" + p, "*" if kind2 == "u" else "y") for p in pref]
+            variants.append([("C",)] + ns + [("M", [only2])])
         if k % 5 == 0:
             variants.append([("H",)] + ns + [("S", b)])
         if k % 7 == 0:   # undeclared prefix: the rule must be rejected; declaration after a rule set: ignored
